@@ -1,6 +1,8 @@
 #![allow(unused, dead_code, unreachable_code)]
 pub mod c12;
 pub mod c04;
+pub mod c09;
+pub mod c09_gen;
 
 /// opaque environment operations: bodies are never used, the checker binds python models to them
 macro_rules! stub {
